@@ -35,13 +35,13 @@ type c03Op struct {
 	N        int    `json:"n"`
 	Kind     string `json:"kind"` // notify | call | roots (client.AddRoots: notifications/roots/list_changed)
 	Dur      int    `json:"dur_ms"`
-	Gap      int    `json:"gap_ms"`              // sender pause before issuing this op
-	Callback bool   `json:"callback,omitempty"`  // notify: the handler calls back into the peer with its own context before it goes on working
-	WriteMs  int    `json:"write_ms,omitempty"`  // roots: the transport takes this long to accept the notification
-	Fault503 bool   `json:"fault_503,omitempty"` // notify over HTTP: the POST is answered with a transient gateway status once
+	Gap      int    `json:"gap_ms"`                 // sender pause before issuing this op
+	Callback bool   `json:"callback,omitempty"`     // notify: the handler calls back into the peer with its own context before it goes on working
+	WriteMs  int    `json:"write_ms,omitempty"`     // roots: the transport takes this long to accept the notification
+	Fault503 bool   `json:"fault_503,omitempty"`    // notify over HTTP: the POST is answered with a transient gateway status once
 	FaultSt  int    `json:"fault_status,omitempty"` // that status: 503 (default), 500, 502, 504 or 429
-	Elicit   bool   `json:"elicit,omitempty"`    // s2c call: elicitation/create instead of roots/list
-	CancelMs int    `json:"cancel_ms,omitempty"` // call: > 0: the caller's context ends this long after the call was issued (possibly while it is still queued at the peer)
+	Elicit   bool   `json:"elicit,omitempty"`       // s2c call: elicitation/create instead of roots/list
+	CancelMs int    `json:"cancel_ms,omitempty"`    // call: > 0: the caller's context ends this long after the call was issued (possibly while it is still queued at the peer)
 }
 
 type c03Spec struct {
